@@ -14,7 +14,7 @@ func init() {
 		ID: "C19",
 		Explanation: "Decides structural necessary conditions of C19: (R-C19-1) after publication the only removal from the active set is the one in the apply phase of a poll, edge-dominated by 'the update is the nil marker' and by the no-handle edge; the nil marker is recorded only in the poll on a branch that depends on the snapshot's expired flag, and every value stored into that flag depends on the expiry predicate; " +
 			"(R-C19-6) after construction whole entries are installed only by the lookup of a new name (polls update in place, so the Declared flag survives); (R-C19-2) the expiry predicate can answer other than false only under !Declared and expiryAge > 0, and then answers exactly now.Sub(lastAccess) > expiryAge with the store's clock, the entry's own last-access time and the configured age; (R-C19-3) every handle read stores timeNow().Unix() into the LastAccess of the entry it returns, under the lock, on every path; " +
-			"(R-C19-4) lastAccess is persisted in the cache document and Declared is not; a zero stamp reads as the zero time; (R-C19-5) Declared is set only before publication, for names of the configured list or for entries stubbed from it; entries created by lookups leave it unset.",
+			"(R-C19-4) lastAccess is persisted in the cache document and Declared is not; a zero stamp reads as the zero time; (R-C19-5) Declared is set only before publication, for names of the configured list or for entries stubbed from it; entries created by lookups leave it unset; (R-C19-8) nothing is ever deleted from the handle map or the watcher lists.",
 		NotDecided:  "Clock arithmetic over histories and restarts; which polls happen when.",
 		Trusted:     commonTrusted,
 		Assumptions: []string{"time.Time.Sub and time.Unix behave as documented"},
@@ -114,6 +114,25 @@ func runC19(c *eng.Ctx, tier string) {
 		c.Check(okNil, "R-C19-1", a.Fn, a.In.Pos(), eng.InstrStr(a.In)+" [marker]", "edge-dominated by 'the update recorded for this very name is the nil (expired) marker'", "holding: "+eng.FactsString(a.In))
 	}
 	checkPrepubRemovals(c, "R-C19-1")
+	// R-C19-8: the registries that say "somebody holds a handle / a watcher for
+	// this name" only grow: the handle map is the store's only record that a
+	// handle was handed out (handles are shared per name and never returned),
+	// so taking a name out of it lets a poll drop a secret a live handle reads
+	nReg := 0
+	for _, a := range storeAccesses(p) {
+		if a.Map == nil || (a.What != "active.f" && a.What != "active.w") {
+			continue
+		}
+		nReg++
+		if a.Map.Kind == "delete" || a.Map.Kind == "clear" {
+			c.Bad("R-C19-8", a.Fn, a.In.Pos(), eng.InstrStr(a.In)+" in "+eng.FName(a.Fn), "no entry is ever removed from the handle or watcher registries", "a name is unregistered although handles already given out keep working through the shared fetcher")
+		}
+	}
+	if nReg == 0 {
+		c.Undecided("R-C19-8", nil, 0, "accesses of Store.active.f / active.w", "none found")
+	} else {
+		c.Ok("R-C19-8", nil, 0, "handle and watcher registries", "never shrunk")
+	}
 	c.Check(nDel == 1, "R-C19-1", nil, 0, "number of post-publication removal sites", "exactly one", "found "+itoa(nDel))
 	// R-C19-6 who may insert after publication: only the lookup routine (entries
 	// installed by a poll are updated in place, so Declared and the access stamp survive)
